@@ -103,7 +103,7 @@ fn api_case(ctx: &Ctx<'_>, out: &mut Out, api: &str, alg: &str, k: usize, thr: u
         let t: Signed<Timestamp> = serde_json::from_value(tj).expect("timestamp parses");
         verdict = r.signed.verify_role(&t).is_ok();
     } else {
-        let deleg = ADeleg { table: table.clone(), roles: vec![ADRole { name: 0, ids: ids.clone(), thr, patterns: vec!["*".into()] }] };
+        let deleg = ADeleg { table: table.clone(), roles: vec![ADRole { name: 0, ids: ids.clone(), thr, patterns: vec!["*".into()], hash_prefixes: vec![] }] };
         let top = ATargets { version: 1, expires: DAY, entries: vec![], deleg: Some(deleg), msg: 1, sigs: vec![] };
         let role = ATargets { version: 1, expires: DAY, entries: vec![], deleg: None, msg: 2, sigs: sigs.clone() };
         let tj = world.targets_doc(&top);
@@ -194,8 +194,8 @@ async fn load_case(ctx: &Ctx<'_>, out: &mut Out, site: &str, alg: &str, k: usize
     }
     let mut table = keys.auth.clone();
     table.push(keys.x);
-    let under_role = |name: usize| ADRole { name, ids: ids.clone(), thr, patterns: vec!["*".into()] };
-    let plain_role = |name: usize| ADRole { name, ids: vec![dk], thr: 1, patterns: vec!["*".into()] };
+    let under_role = |name: usize| ADRole { name, ids: ids.clone(), thr, patterns: vec!["*".into()], hash_prefixes: vec![] };
+    let plain_role = |name: usize| ADRole { name, ids: vec![dk], thr: 1, patterns: vec!["*".into()], hash_prefixes: vec![] };
     // role0 (depth 1) delegates to role1 (depth 2)
     let mut role1 = ATargets { version: 1, expires: 7 * DAY, entries: vec![(1, 3, 2)], deleg: None, msg: msgs.next(), sigs: valid_sigs(&[dk]) };
     let mut role0 = ATargets {
